@@ -37,7 +37,7 @@ EXPLANATION = (
 )
 
 MANIFEST = {
-    "technique": "static analysis: alias/effect analysis across the .pyx front-end, truth-table implication for pruning conditions, axis (unit) typing and polarity of bounds tuples on canonical terms, order of chunk bounds from index formulas, integer lower bounds of sample counts, union-filter meaning and late-bound closure detection; package-wide coordinate-system forwarding; merge-not-overwrite premise shared with C10; the tile filter followed as closure or callable object down to the compiled test; records (namedtuples with methods) inlined; perimeter refinement decided sample by sample (the 125 perimeter samples enumerated: slice copies interpreted on the coarse grid, refinement window evaluated per sample); coarse-grid extent reaches the outer pixel edges",
+    "technique": "static analysis: alias/effect analysis across the .pyx front-end, truth-table implication for pruning conditions, axis (unit) typing and polarity of bounds tuples on canonical terms, order of chunk bounds from index formulas, integer lower bounds of sample counts, union-filter meaning and late-bound closure detection; package-wide coordinate-system forwarding; merge-not-overwrite premise shared with C10; the tile filter followed as closure or callable object down to the compiled test; records (namedtuples with methods) inlined; perimeter refinement decided sample by sample (the 125 perimeter samples enumerated: slice copies interpreted on the coarse grid, refinement window evaluated per sample); coarse-grid extent reaches the outer pixel edges; per-mode update convention on the filtered route (shared with C15); path-condition implication: the shared chunk buffer is returned only after the fill",
     "text": "Decides necessary structural conditions of 'filters never drop a tile holding data': purity, pruning rule, mask construction, bound order/axis provenance end to end, end-point sampling of the bound refinement. The geometric acceptance guarantee is not decided.",
     "note": "Trusted: compiled bbox test as written in the .pyx; numpy linspace/asarray semantics; astropy WCS. Not decided: spherical geometry of the acceptance test over floats.",
 }
